@@ -718,19 +718,7 @@ namespace avel {
     template<std::uint32_t S, typename std::enable_if<8 <= S, bool>::type = true>
     [[nodiscard]]
     AVEL_FINL vec64x8u rotl(vec64x8u v) {
-        #if defined(AVEL_AVX512BW)
-        auto lo = _mm512_unpacklo_epi8(decay(v), decay(v));
-        auto hi = _mm512_unpackhi_epi8(decay(v), decay(v));
-
-        lo = _mm512_slli_epi16(lo, S);
-        hi = _mm512_slli_epi16(hi, S);
-
-        lo = _mm512_srli_epi16(lo, 8);
-        hi = _mm512_srli_epi16(hi, 8);
-
-        auto ret = _mm512_packus_epi16(lo, hi);
-        return vec64x8u{ret};
-        #endif
+        return rotl<S % 8>(v);
     }
 
     [[nodiscard]]
